@@ -42,6 +42,7 @@ def run(ctx, rep, tier):
     loops.sort(key=lambda n: n.lineno)
 
     rep.rule("C05.a", "short-circuit merges append the absorbed transition's actions after the absorbing one's, carry the error mark, retarget")
+    rep.rule("C05.l", "neither rewriting loop merges an action that returns early (input advanced before the actions) with one that may leave without consuming")
     rep.rule("C05.h", "the fall-through short-circuit never turns a transition whose own actions may leave early into a consuming one")
     rep.rule("C05.g", "neither rewriting loop bypasses an accepting state (resting in it is observable: DONE from feed/end)")
     rep.rule("C05.b", "no rewiring across condition points / non-eliminable proxies (source or target); Else widened by target.compute_foreign_else_definition(source)")
@@ -75,6 +76,19 @@ def run(ctx, rep, tier):
                 disj = st.test.values if isinstance(st.test, ast.BoolOp) and isinstance(st.test.op, ast.Or) else [st.test]
                 if any(ast.unparse(d) in (f"{tv}.target in self.dfa.accepting_states", f"self.dfa.is_accepting({tv}.target)") for d in disj):
                     acc = True
+        # --- C05.l: an early-returning action and one that may leave without consuming never end up on one transition
+        absorbed_name = "next_target" if li == 0 else "to_replace"
+        okl = False
+        for st in lp.body:
+            if any(isinstance(n, ast.Call) and isinstance(n.func, ast.Attribute) and n.func.attr in ("attach", "to", "fallthrough", "handles_else") for n in ast.walk(st)):
+                break
+            if isinstance(st, ast.If) and len(st.body) == 1 and isinstance(st.body[0], ast.Continue) and not st.orelse:
+                t = ast.unparse(st.test)
+                if re.fullmatch(r"any\(\(?(\w+)\.may_return_early\(\) for \1 in combined_actions\)?\) and any\(\(?(\w+)\.get_target_override_mode\(\) == ActionOverrideMode\.MAY_GOTO_TARGET for \2 in combined_actions\)?\)", t):
+                    okl = model.has(SC, f"combined_actions = [*{tv}.actions, *{absorbed_name}.actions]", root=[x for x in lp.body])
+        rep.check(okl, "C05.l", SC, f"{name}: no merge that puts an early-returning action and a may-redirect action on one transition",
+                  "a yield is merged onto a transition with an action that may leave without consuming (append overflow, break under an if): the generated code advances the input before the "
+                  "actions, the redirect re-dispatches the same byte and the next one is skipped - with one byte left the pointer passes the end of the caller's buffer")
         if li == 0:
             # --- C05.h: the absorbing fall-through transition carries no action that may leave early
             lv = False
